@@ -406,6 +406,10 @@ def parse_shape(R, ctx):
         sl = [e for e in r.effects if e[0].split('::')[-1] == 'next' and _splits_at(e[2]['x'][0], '/')]
         if len(sl) >= 3 and r.get(f"variant({sl[2][0]}#{sl[2][2].get('n')})") == 'Some':
             n_slash += 1
+            # a row that recorded an error text and then finds the collected text empty is infeasible (helpers that turn `collected errors` into the
+            # result fork on is_empty(); the text pushed is never empty)
+            if not is_err and any(re.search(PUSHSTR, e[0]) for e in r.effects):
+                continue
             if not is_err or any(e[0].split('::')[-1] == 'push' and 'ModuleFilter' in (r.long(e[1][1]) if len(e[1]) > 1 else '') for e in r.effects):
                 bad_slash = ("a text with more than two '/'-separated segments is accepted on some path (the outcome depends on what the surplus segment contains): "
                              "malformed input is not reported and the rest of the text is silently dropped")
